@@ -141,6 +141,35 @@ def fitted_scope(ctx, props):
         for clause, ok, wit, msg in recs: ctx.check(clause, clause.split('#')[0], ok, wit, msg)
 
 
+def continuous_scope(ctx):
+    """ContinuousDiscretizer itself (min_freq -> q): boundaries strictly increasing observed values then +inf; every value at least as frequent as min_freq is a boundary"""
+    from AutoCarver.discretizers.utils.quantitative_discretizers import ContinuousDiscretizer
+    rng = ctx.rng; n_cases = 400 if ctx.tier == 'quick' else 4000
+    ctx.bound('ContinuousDiscretizer.fit', '%d seeded columns of 20-200 rows with one spike whose frequency is placed just below / on / above min_freq, min_freq in {0.05,0.1,0.15,0.2,0.3,0.35,0.45,0.5}, optional NaN' % n_cases)
+    for _ in range(n_cases):
+        mf = rng.choice([0.05, 0.1, 0.15, 0.2, 0.3, 0.35, 0.45, 0.5]); n = rng.choice([20, 40, 50, 100, 200])
+        c = max(1, min(n, int(round(mf * n)) + rng.choice([-1, 0, 0, 1, 2])))
+        nan_count = rng.choice([0, 0, n // 10]); rest = n - c - nan_count
+        if rest < 0: continue
+        vals = [5.0] * c + [round(rng.random() * 10, 3) + (0 if rng.random() < 0.5 else 6) for _ in range(rest)] + [np.nan] * nan_count
+        rng.shuffle(vals)
+        X = pd.DataFrame({'q': pd.Series(vals, dtype=float)}); w = dict(min_freq=mf, values=[None if isnan(v) else v for v in vals])
+        try:
+            d = ContinuousDiscretizer(quantitative_features=['q'], min_freq=mf, copy=True); d.fit(X, pd.Series([i % 2 for i in range(n)]))
+        except AssertionError: continue
+        except Exception as e:
+            ctx.check('ContinuousDiscretizer.fit#raises.only_AssertionError', 'ContinuousDiscretizer.fit', False, w, '%s: %s' % (type(e).__name__, str(e)[:120])); continue
+        order = d.values_orders['q']; leaders = [float(l) for l in order if l != d.str_nan]
+        vc = X['q'].value_counts()
+        ctx.check('ContinuousDiscretizer.fit#post.boundaries_strictly_increasing_observed_then_inf', 'ContinuousDiscretizer.fit',
+                  all(a < b for a, b in zip(leaders, leaders[1:])) and leaders[-1] == float('inf') and all(l in vc.index for l in leaders[:-1]), w, 'boundaries %r' % (leaders,))
+        frequent = [float(v) for v, k in vc.items() if k / n >= mf]
+        ctx.check('ContinuousDiscretizer.fit#post.values_at_least_min_freq_frequent_are_boundaries', 'ContinuousDiscretizer.fit', all(v in leaders for v in frequent), w,
+                  'values %r hold >= min_freq=%.3f of the %d rows but boundaries are %r' % (frequent, mf, n, leaders))
+        ctx.check('ContinuousDiscretizer.fit#post.nan_is_separate_modality', 'ContinuousDiscretizer.fit', (nan_count > 0) == order.contains(d.str_nan), w, 'NaN modality')
+
+
 def run(ctx):
     quantile_scope(ctx, {ctx.prop})
+    if ctx.prop == 'C09': continuous_scope(ctx)
     if ctx.prop == 'C09': fitted_scope(ctx, {ctx.prop})
